@@ -446,9 +446,19 @@ func runC14Operand() *RunResult {
 	if rooted {
 		root = "$"
 	}
+	// a value-group operand (existence tests only): the function is called for EVERY value the
+	// group path selects for a member, in order - not just for the one the test needs
+	group := chance(25)
+	if group {
+		suffix += pick([]string{".*", "[*]", "..a", "..*", "[0:2]", "[0,1]", "['a','b']"})
+	}
 	operand := root + suffix + "." + funcNames[f] + "()"
 	var query string
-	switch rn(4) {
+	qk := rn(4)
+	if group {
+		qk = rn(2)
+	}
+	switch qk {
 	case 0:
 		query = operand
 	case 1:
@@ -478,6 +488,7 @@ func runC14Operand() *RunResult {
 	type sel struct {
 		ok bool
 		v  interface{}
+		vs []interface{} // group operand: every value selected for this member
 	}
 	var sels []sel
 	opFn := soloParse(&PathSpec{Text: "$" + suffix}, CfgSpec{})
@@ -492,8 +503,10 @@ func runC14Operand() *RunResult {
 		}
 		simrt.OpStart()
 		r, _ := safeCall(opFn.Fn, m)
-		if len(r) == 1 {
-			sels = append(sels, sel{true, r[0]})
+		if group {
+			sels = append(sels, sel{ok: len(r) > 0, vs: r})
+		} else if len(r) == 1 {
+			sels = append(sels, sel{ok: true, v: r[0]})
 		} else {
 			sels = append(sels, sel{})
 		}
@@ -519,6 +532,14 @@ func runC14Operand() *RunResult {
 	var args []interface{}
 	for _, s := range sels {
 		if !s.ok {
+			continue
+		}
+		if group {
+			if isAggregate(f) {
+				args = append(args, listArg(s.vs)) // the list of all values of the group
+			} else {
+				args = append(args, s.vs...) // once per selected value, in order
+			}
 			continue
 		}
 		a := s.v
